@@ -9,7 +9,7 @@
    model_ok : the facts and the response class are what Model.Repo (repaired) computes.
    spec_class : the property itself (RepoInv and the error frame) evaluated as a boolean on the
    implementation's facts alone -- it never looks at the model state. *)
-From DV Require Import Base.Prelude Model.Repo.
+From DV Require Import Base.Prelude Model.Repo Model.RepoExt.
 From Coq Require Import String Ascii.
 From stdpp Require Import gmap strings.
 Local Open Scope string_scope.
@@ -71,7 +71,7 @@ Definition apply_delta (fs : list fact) (d : delta) : list fact :=
   end.
 Definition apply_deltas (fs : list fact) (ds : list delta) : list fact := fold_left apply_delta ds fs.
 
-Definition step_obs := (req * oresp * list delta)%type.
+Definition step_obs := (xreq * oresp * list delta)%type.
 Definition c07case := list step_obs.
 
 (* ---- equality helpers ---- *)
@@ -156,20 +156,23 @@ Definition complete (s : state) (fs : list fact) : bool :=
                     | _ => true
                     end) fs.
 
-Fixpoint model_run (fx : fixes) (s : state) (fs : list fact) (c : c07case) : bool :=
+Fixpoint model_run (fx : fixes) (xf : xfixes) (s : state) (fs : list fact) (c : c07case) : bool :=
   match c with
   | [] => true
   | (r, o, ds) :: rest =>
-    let (s1, out) := step fx s r in
+    let (s1, out) := xstep fx xf s r in
     let fs1 := apply_deltas fs ds in
     match class_of_outcome out with
-    | Some k => oresp_eqb k o && forallb (fact_ok s1) fs1 && complete s1 fs1 && model_run fx s1 fs1 rest
+    | Some k => oresp_eqb k o && forallb (fact_ok s1) fs1 && complete s1 fs1 && model_run fx xf s1 fs1 rest
     | None => false
     end
   end.
-Definition model_ok (c : c07case) : bool := model_run repaired init [] c.
+(* hideBranch: /repo has the code as found; once repo_patches/C07-8 is applied it has the repaired
+   one.  The run is accepted when one of the two models reproduces every step of it. *)
+Definition model_ok (c : c07case) : bool :=
+  model_run repaired x_found init [] c || model_run repaired x_repaired init [] c.
 (* the code as found, for runs against an unrepaired tree *)
-Definition model_ok_as_found (c : c07case) : bool := model_run as_found init [] c.
+Definition model_ok_as_found (c : c07case) : bool := model_run as_found x_found init [] c.
 
 (* ---- property side: RepoInv as a boolean on the implementation's facts ---- *)
 Record onode := mkON { on_repo : string; on_uuid : string; on_v : N; on_br : string; on_locked : bool;
@@ -316,15 +319,15 @@ Definition state_delta (d : delta) : bool := true.
 (* 4 (continued): a UUID the caller assigned (root of a new repo, "uuid" of newversion / branch, the
    tag of a tag request) is, when the request is answered with success, the UUID of the node that
    request created -- byte for byte *)
-Definition assigned_of (r : req) : option string :=
+Definition assigned_of (r : xreq) : option string :=
   match r with
-  | RNewRepo (Some a) _ _ => Some a
-  | RNewVersion _ a _ => if String.eqb a "" then None else Some a
-  | RBranch _ _ a _ => if String.eqb a "" then None else Some a
-  | RTag _ t => Some t
+  | XB (RNewRepo (Some a) _ _) => Some a
+  | XB (RNewVersion _ a _) => if String.eqb a "" then None else Some a
+  | XB (RBranch _ _ a _) => if String.eqb a "" then None else Some a
+  | XB (RTag _ t) => Some t
   | _ => None
   end.
-Definition assigned_honoured_b (fs : list fact) (r : req) (ds : list delta) : bool :=
+Definition assigned_honoured_b (fs : list fact) (r : xreq) (ds : list delta) : bool :=
   match assigned_of r with
   | None => true
   | Some a =>
@@ -332,6 +335,23 @@ Definition assigned_honoured_b (fs : list fact) (r : req) (ds : list delta) : bo
     existsb (fun d => match d with
                       | DSet (FNode _ x v _ _ _ _) => String.eqb x a && negb (mem_n v old_vs)
                       | _ => false end) ds
+  end.
+
+(* Known findings (findings/C07.json), each recognised by exactly its shape; every other class on
+   the same requests still alarms.
+   31: an accepted hide-branch left a surviving node with a parent that is no node any more (the
+       only clause broken is the mirror clause, class 2);
+   32: an accepted make-master left the branch clause (class 6) broken: the name given to the old
+       master chain is "master" or in use, or the chain holds a merge node. *)
+Definition dangling_parent_b (fs : list fact) : bool :=
+  let ns := onodes fs in
+  existsb (fun n => existsb (fun p => match find_v (nodes_of (on_repo n) ns) p with Some _ => false | None => true end)
+                            (on_ps n)) ns.
+Definition known_shape (r : xreq) (fs1 : list fact) (k : nat) : nat :=
+  match r with
+  | XHideBranch _ _ => if Nat.eqb k 2 && dangling_parent_b fs1 then 31 else k
+  | XMakeMaster _ _ => if Nat.eqb k 6 then 32 else k
+  | _ => k
   end.
 
 Fixpoint spec_run (fs : list fact) (c : c07case) : nat :=
@@ -344,7 +364,7 @@ Fixpoint spec_run (fs : list fact) (c : c07case) : nat :=
       if negb (assigned_honoured_b fs r ds) then 4 else
       match inv_class fs1 with
       | O => spec_run fs1 rest
-      | k => k
+      | k => known_shape r fs1 k
       end
     | _, [] =>
       match inv_class fs1 with
